@@ -9,7 +9,7 @@
     linearly with the input and nothing cuts it off ([C23_parser_stack_bounded_refuted]); the true
     statements are the linear two-sided bound and the bound for the repaired parser. *)
 From Coq Require Import List ZArith Arith.
-From VibeSQL Require Import Lex.Lexer Lex.LexerLaws Lex.ParseSkel Lex.ParseSkelLaws.
+From VibeSQL Require Import Lex.Lexer Lex.LexerLaws Lex.ParseSkel Lex.ParseSkelLaws Lex.EndToEnd.
 Import ListNotations.
 
 (** *** Lexer *)
@@ -72,6 +72,17 @@ Theorem C23_parser_stack_bounded_refuted : forall B : nat,
 Proof. exact depth_unbounded. Qed.
 Print Assumptions C23_parser_stack_bounded_refuted.
 
+(** the same refutation stated on the input TEXT (lexer model composed with the skeleton): a text of
+    at most [2*d+9] characters that lexes without error, is an accepted statement, and needs at least
+    [d] frames *)
+Theorem C23_text_depth_unbounded_refuted : forall uni_alnum uni_upper (d : nat),
+  exists cs ts, (length cs <= 2 * d + 9)%nat /\
+                (tokenize uni_alnum uni_upper cs = Ok ts) /\
+                (skel_accepts (map skel_of_token ts) = Some true) /\
+                (d <= skel_depth (map skel_of_token ts))%nat.
+Proof. exact text_depth_unbounded. Qed.
+Print Assumptions C23_text_depth_unbounded_refuted.
+
 (** the witnesses and their exact depths: [SELECT ((..(1)..))] and [SELECT - - .. - 1] *)
 Theorem C23_depth_witnesses : forall k,
   skel_depth (paren_stmt k) = (10 * k + 14)%nat /\ skel_depth (minus_stmt k) = (k + 14)%nat /\
@@ -93,6 +104,13 @@ Theorem C23_depth_bounded_outside_known_class : forall l ts,
   skel_parse_lim (Some l) ts = skel_parse ts -> (skel_depth ts <= 12 * l + 3)%nat.
 Proof. exact depth_bounded_outside_known_class. Qed.
 Print Assumptions C23_depth_bounded_outside_known_class.
+
+(** the repair is conservative: what the depth-limited parser accepts, the current parser accepts with
+    the same remaining tokens and the same depth (the guard only turns results into ParseErrors) *)
+Theorem C23_repair_conservative : forall l ts ts' m,
+  skel_parse_lim (Some l) ts = Some (POk ts' m) -> skel_parse ts = Some (POk ts' m).
+Proof. exact repair_conservative. Qed.
+Print Assumptions C23_repair_conservative.
 
 (** the repaired parser (fixes/C23-depth-limit.patch): total, and never deeper than [12*l+3] frames
     whatever the input.  [_partial]: this and everything above speaks about the recursion skeleton
